@@ -4,8 +4,8 @@ What a transient fault at the socket boundary does to a connection (C11): handle
 for **every** state (no reachability hypothesis), and iteration by iteration for a connection
 whose loop is otherwise idle.
 -/
-namespace MuduoVerif.Conn
-open MuduoVerif.Gen.Conn
+namespace MuduoVerif.Conn.Fault
+open MuduoVerif.Conn MuduoVerif.Gen.Conn
 
 /-! ### handlers -/
 
@@ -262,4 +262,4 @@ theorem faultIter_evs_quiet (c : Conn) (f : FaultIter) :
   | read x => simp [FaultIter.evs] at he; exact Or.inr ⟨_, he⟩
   | eintr => simp [FaultIter.evs] at he
 
-end MuduoVerif.Conn
+end MuduoVerif.Conn.Fault
